@@ -29,18 +29,19 @@ Proof.
   - apply IH.
 Qed.
 
-Lemma nth_error_len (l l' : list A) (k : nat) :
+Lemma nth_error_len {B} (l : list A) (l' : list B) (k : nat) :
   length l = length l' -> nth_error l k = None -> nth_error l' k = None.
 Proof. intros Hl Hn. apply nth_error_None in Hn. apply nth_error_None. lia. Qed.
 
-Lemma nth_error_both (l l' : list A) (k : nat) : length l = length l' ->
+Lemma nth_error_both {B} (l : list A) (l' : list B) (k : nat) : length l = length l' ->
   (exists u v, nth_error l k = Some u /\ nth_error l' k = Some v) \/
   (nth_error l k = None /\ nth_error l' k = None).
 Proof.
   intros Hl. destruct (nth_error l k) as [u|] eqn:E1.
   - destruct (nth_error l' k) as [v|] eqn:E2.
     + left. eauto.
-    + apply (nth_error_len l' l) in E2; congruence.
+    + apply nth_error_None in E2. assert (E1' : nth_error l k <> None) by congruence.
+      apply nth_error_Some in E1'. lia.
   - right. split; [reflexivity | eapply nth_error_len; eauto].
 Qed.
 End Lists.
@@ -61,7 +62,7 @@ Lemma upd_other (s : store T) i v j : j <> i -> upd s i v j = s j.
 Proof. intros Hn. unfold upd. apply Nat.eqb_neq in Hn. rewrite Hn. reflexivity. Qed.
 End Store.
 
-Lemma nth3 {A} (x y z : list A) k : length x = length y -> length z = length x ->
+Lemma nth3 {A B C} (x : list A) (y : list B) (z : list C) k : length x = length y -> length z = length x ->
   (exists u v w, nth_error x k = Some u /\ nth_error y k = Some v /\ nth_error z k = Some w) \/
   (nth_error x k = None /\ nth_error y k = None /\ nth_error z k = None).
 Proof.
@@ -70,6 +71,12 @@ Proof.
   destruct (nth_error_both z x k L2) as [(w & u' & E3 & E4) | (E3 & E4)]; try congruence.
   - left. exists u, v, w. auto.
   - right. auto.
+Qed.
+
+Lemma map_Some_inj {A} (x y : list A) : map Some x = map Some y -> x = y.
+Proof.
+  revert y; induction x as [|a x IH]; intros [|b y] E; cbn in E; try congruence.
+  injection E. intros E' Eab. f_equal; [exact Eab | apply IH; exact E'].
 Qed.
 
 (* ---------- symbolic execution of the regenerated tree ---------- *)
@@ -129,13 +136,7 @@ Proof.
 Qed.
 End DirectAny.
 
-(* ---------- fallback and BLAS regimes over a field ---------- *)
-Section Field.
-Context {T : Type} {N : Num T} {F : NumField T}.
-Add Field Tfield : nf_field.
-
-Let idc : T -> T := fun u => u.
-
+(* ---------- scalar reasoning after the case split ---------- *)
 Ltac subst_scalars :=
   repeat match goal with
   | H : ?x = nzero |- _ => is_var x; subst x
@@ -172,6 +173,13 @@ Ltac finish L12 Lo :=
     split; [ reads; rewrite map_id; pointwise L12 Lo; subst_scalars; rewrite ?nf_of0;
              try (field; auto); try zero_is_one
            | intros j Hj; reads; reflexivity ] ].
+
+(* ---------- fallback and BLAS regimes over a field ---------- *)
+Section Field.
+Context {T : Type} {N : Num T} {F : NumField T}.
+Add Field Tfield : nf_field.
+
+Let idc : T -> T := fun u => u.
 
 (* every leaf of the tree that does not re-enter _lincomb_impl *)
 Lemma tree_no_rec (rc : env T -> store T -> outcome T) (r : regime) a b (i1 i2 io : nat) (s : store T) :
